@@ -24,7 +24,7 @@ ASSUMPTIONS = ['expiry is the only disqualifying key condition reachable through
 KEYS = [('rsa1024-0', 'RSA', 'weak'), ('rsa2048-2', 'RSA', 'strong'), ('dsa1024-0', 'DSA', 'weak'), ('dsa2048-1', 'DSA', 'strong'),
         ('ecdsa-p256-0', 'EC', 'weak'), ('ed25519-0', 'EC', 'strong')]
 HASHES = [8, 2, 1]
-SUBJECTS = ['doc', 'self-uid', 'third-uid', 'whole-key', 'message', 'doc-by-subkey', 'doc-noise', 'doc-zero-expiry', 'doc-old-long', 'doc-by-expired-subkey', 'doc-direct-expiry', 'doc-unhashed-noise']
+SUBJECTS = ['doc', 'self-uid', 'third-uid', 'whole-key', 'message', 'doc-by-subkey', 'doc-noise', 'doc-zero-expiry', 'doc-old-long', 'doc-by-expired-subkey', 'doc-direct-expiry', 'doc-unhashed-noise', 'doc-forged-selfsig', 'doc-by-unbound-subkey']
 
 
 def w_algebra(arg):
@@ -79,6 +79,21 @@ def build_cert(kid, expired, revoked, halg, secret=False, noise=False):
         noise = False
     blob = keypool.ref_cert(kid, uids=('Verdict Key <verdict@example.org>', 'Second <second@example.org>'), subkeys=(('cv25519-0', 0x0C), ('ed25519-1', 0x02)),
                             secret=secret, halg=halg, uid_extra=extra)
+    if noise == 'unbound':
+        # somebody else's key material relabelled as a public subkey packet and appended, without any binding signature
+        return blob + wire.build_packet(14, keypool.ref_public('ed25519-2').body)
+    if noise == 'forged':
+        # a later "self-certification" without validity period that merely NAMES the key as issuer: its signature integers are rubbish
+        psec = keypool.ref_secret(kid)
+        pk = wire.split_packets(blob)
+        out = b''
+        for i, p in enumerate(pk):
+            out += p.raw
+            if p.tag == 2 and i > 0 and pk[i - 1].tag == 13:
+                good = rsig.sign(psec, 0x13, halg, ('cert', psec.pub, 'uid', pk[i - 1].body),
+                                 keypool.std_hashed(psec.pub.created + 9000, psec.pub.fingerprint, keypool.sp(27, b'\x03')), keypool.sp(16, psec.pub.keyid))
+                out += wire.build_packet(2, corrupt(good))
+        return out
     if noise == 'unhashed':
         # anybody can add subpackets to the unhashed area, which the signature does not cover: a signature expiration time of one second and a
         # key expiration time of zero placed there say nothing about the self-signatures or the key
@@ -164,24 +179,34 @@ def scenario(rec, kid, fam, strength, expired, revoked, halg, subject, wrong):
     case = {'kind': 'scn', 'kid': kid, 'expired': expired, 'revoked': revoked, 'halg': halg, 'subject': subject, 'wrong': wrong}
     psec = keypool.ref_secret(kid)
     ppub = psec.pub
-    cert = build_cert(kid, expired, revoked, halg, noise=(subject == 'doc-noise') or {'doc-zero-expiry': 'zero', 'doc-old-long': 'old-long', 'doc-by-expired-subkey': 'sub-expired', 'doc-direct-expiry': 'direct', 'doc-unhashed-noise': 'unhashed'}.get(subject, False))
+    cert = build_cert(kid, expired, revoked, halg, noise=(subject == 'doc-noise') or {'doc-zero-expiry': 'zero', 'doc-old-long': 'old-long', 'doc-by-expired-subkey': 'sub-expired', 'doc-direct-expiry': 'direct', 'doc-unhashed-noise': 'unhashed', 'doc-forged-selfsig': 'forged', 'doc-by-unbound-subkey': 'unbound'}.get(subject, False))
     if subject == 'doc-zero-expiry':
         expired = False
-    if subject in ('doc-old-long', 'doc-by-expired-subkey', 'doc-direct-expiry', 'doc-unhashed-noise'):
+    disqualified = False
+    if subject == 'doc-by-unbound-subkey':
+        # "no valid self-signature": the component the signature names sits in the certificate without any binding signature
+        disqualified = True
+    if subject in ('doc-old-long', 'doc-by-expired-subkey', 'doc-direct-expiry', 'doc-unhashed-noise', 'doc-forged-selfsig'):
         if revoked or not expired:
             return          # one scenario per key and hash is enough: the certificate is built expired by construction
         expired = True
     n_sigs = 1
     try:
         ver = keypool.pgpy_key(cert)
-        if subject in ('doc-by-subkey', 'doc-by-expired-subkey'):
+        if subject == 'doc-by-unbound-subkey':
+            fsec = keypool.ref_secret('ed25519-2')
+            body = rsig.sign(fsec, 0x00, halg, ('doc', b'verdict coherence'), keypool.std_hashed(1600000000, fsec.pub.fingerprint), keypool.sp(16, fsec.pub.keyid))
+            if wrong == 0:
+                body = corrupt(body)
+            res = ver.verify(b'verdict coherence', pgpy.PGPSignature.from_blob(wire.build_packet(2, body)))
+        elif subject in ('doc-by-subkey', 'doc-by-expired-subkey'):
             # the document is signed by the signing subkey of the certificate; the verdict is asked of the (possibly expired) primary
             ssec = keypool.ref_secret('ed25519-1')
             body = rsig.sign(ssec, 0x00, halg, ('doc', b'verdict coherence'), keypool.std_hashed(1600000000, ssec.pub.fingerprint), keypool.sp(16, ssec.pub.keyid))
             if wrong == 0:
                 body = corrupt(body)
             res = ver.verify(b'verdict coherence', pgpy.PGPSignature.from_blob(wire.build_packet(2, body)))
-        elif subject in ('doc', 'doc-noise', 'doc-zero-expiry', 'doc-old-long', 'doc-direct-expiry', 'doc-unhashed-noise'):
+        elif subject in ('doc', 'doc-noise', 'doc-zero-expiry', 'doc-old-long', 'doc-direct-expiry', 'doc-unhashed-noise', 'doc-forged-selfsig'):
             body = rsig.sign(psec, 0x00, halg, ('doc', b'verdict coherence'), keypool.std_hashed(1600000000, ppub.fingerprint), keypool.sp(16, ppub.keyid))
             if wrong == 0:
                 body = corrupt(body)
@@ -227,14 +252,16 @@ def scenario(rec, kid, fam, strength, expired, revoked, halg, subject, wrong):
         return
     if subject != 'whole-key' and wrong is not None and wrong > 0:
         return
-    want = (not expired) and wrong is None
+    want = (not expired) and wrong is None and not disqualified
     nt = expired or wrong is not None or n_sigs >= 2
     rec.case(('scn', kid, expired, revoked, halg, subject, wrong), nt,
              ('family/%s-%s' % (fam, strength), 'expired/%s' % expired, 'revoked/%s' % revoked, 'hash/%d' % halg, 'subject/' + subject,
               'wrong/%s' % ('none' if wrong is None else 'one'), 'verdict/%s' % bool(res)),
              {'key': kid, 'strength': strength, 'expired': expired, 'revoked': revoked, 'hash': halg, 'subject': subject, 'wrong_index': wrong, 'truthy': bool(res)})
     if bool(res) != want:
-        if expired and bool(res):
+        if disqualified and bool(res):
+            cause = 'component-without-valid-self-signature-verifies'
+        elif expired and bool(res):
             cause = 'disqualifier-masked-by-advisory-flag' if strength == 'weak' or revoked else 'expired-key-verifies'
         elif wrong is not None and bool(res):
             cause = 'wrong-signature-accepted'
